@@ -34,6 +34,7 @@ pub fn all() -> Vec<&'static dyn Scenario> {
         &xcurve::ArithProg,
         &robust::CtrWrap,
         &robust::Misuse,
+        &robust::LenWrap,
     ]
 }
 
